@@ -390,7 +390,7 @@ BUILTINS = {"str", "repr", "len", "sorted", "list", "tuple", "set", "isinstance"
             "enumerate", "zip", "range", "any", "all", "int", "float", "bool", "print", "reversed",
             "frozenset", "dict", "getattr", "hasattr", "id", "hash", "min", "max", "sum", "ascii",
             "format", "iter", "next", "filter", "abs", "setattr", "delattr", "compile", "exec", "eval", "globals", "locals", "callable",
-            "vars", "round", "divmod", "pow", "object"}
+            "vars", "round", "divmod", "pow", "object", "staticmethod"}
 EXC_BUILTINS = {"RuntimeError", "ValueError", "TypeError", "KeyError", "NotImplementedError",
                 "Exception", "AssertionError", "AttributeError", "IndexError", "SyntaxError"}
 
@@ -2639,6 +2639,8 @@ class Interp:
             if not args:
                 return Tmpl()
             return self.render(args[0], "str", site)
+        if name == "staticmethod" and len(args) == 1 and not kwargs and isinstance(args[0], FuncVal):
+            return args[0]            # `name = staticmethod(module_function)` in a class body: called without an instance
         if name == "repr":
             return self.render(args[0], "repr", site)
         if name == "ascii":
